@@ -79,7 +79,8 @@ func TestC05(t *testing.T) {
 			enc := hello.GenBytes(t, "g_enc", 32)
 			switch rapid.IntRange(0, 5).Draw(t, "g_enc_kind") {
 			case 0:
-				enc = hello.GenBytes(t, "g_enc_odd", []int{1, 16, 31, 33, 48, 64, 65}[uniform(t, "g_enc_len", 7)])
+				// other KEMs' shares: P-256/384/521 points, X-Wing / ML-KEM ciphertexts of 1088..1568 bytes
+				enc = hello.GenBytes(t, "g_enc_odd", []int{1, 16, 31, 33, 48, 64, 65, 97, 133, 134, 1088, 1120, 1568}[uniform(t, "g_enc_len", 13)])
 				cl0 = append(cl0, "enc_unusable_for_kem")
 			case 1:
 				enc = make([]byte, 32)
